@@ -173,7 +173,7 @@ def tree_cases(ctx, docs):
         # defaults + seeded members of the pairwise-covering family (+ the document reading of a fragment)
         add(src, 0, frag, 'gen:' + name, pred)
         if quick:
-            if (i + ctx.seed) % 2 == 0:
+            if (i + ctx.seed) % 3 == 0:
                 add(src, o2, frag, 'gen:' + name, pred)
             if frag and (i + ctx.seed) % 4 == 1:
                 add(src, 0, False, 'gen:' + name + ':asdoc', pred)
